@@ -35,4 +35,5 @@ func init() {
 	register("C16", "exploration", C16)
 	register("C11", "exploration", C11)
 	register("C05", "exploration", C05)
+	register("C04", "exploration", C04)
 }
